@@ -108,7 +108,7 @@ func (g *Prog) varsOf(t Ty) []string {
 
 func (g *Prog) pick(l []string) string { return l[g.R.Intn(len(l))] }
 
-var progStrs = []string{"", "a", "ab", "héllo", "x y", "0", "abc"}
+var progStrs = []string{"", "a", "ab", "héllo", "x y", "0", "abc", "\xffz", "世"}
 
 func (g *Prog) intLit() *gt.T {
 	switch g.R.Intn(10) {
